@@ -117,7 +117,8 @@ func H_C04_killSome(doneI int, withPartial int) {
 	_, f := vsStageNode(top, "PROD", false)
 	f.metadata.contents[CompleteFile] = struct{}{}
 	base := f.path + "/files"
-	ents := []*vkEntry{{path: base + "/d"}, {path: base + "/d/f"}, {path: base + "/g"}}
+	// dx is a sibling whose name merely extends the name of directory d
+	ents := []*vkEntry{{path: base + "/d"}, {path: base + "/d/f"}, {path: base + "/g"}, {path: base + "/dx"}}
 	live := [2]bool{verifBool("a1.live"), verifBool("a2.live")}
 	f.fileArgs = map[string]map[Nodable]struct{}{}
 	f.filePostNodes = map[Nodable]map[string]syntax.Type{}
@@ -307,5 +308,5 @@ func H_C04_pathIsInside(n1, n2 int) {
 	if parent == "/" {
 		want = true
 	}
-	verifAssert(pathIsInside(test, parent) == want || parent == "/", "C04: pathIsInside is equality or ancestry on clean paths")
+	verifAssert(pathIsInside(test, parent) == want || parent == "/", "C04/C14: pathIsInside is equality or ancestry on clean paths")
 }
